@@ -1,973 +1,5 @@
 import DaeVerif.C09.Model
-/-! Helper lemmas and invariants for C09 (the property theorems are in `Props.lean`). -/
-namespace DaeVerif.C09
-
-namespace Fwd
-
-def holds : Pc → Bool
-  | .b3 | .b4 | .busy | .e1 => true
-  | _ => false
-def isUsing : Pc → Bool
-  | .busy => true
-  | _ => false
-def knows : Pc → Bool
-  | .b4 | .b5 | .e2r | .e3 | .r2 | .r3 => true
-  | _ => false
-def closing : Pc → Bool
-  | .b5 | .e3 | .r3 => true
-  | _ => false
-def closer : Pc → Bool
-  | .r2 | .r3 | .b5 | .e3 | .e2 | .e2r => true
-  | _ => false
-def rawCloser : Pc → Bool
-  | .v3 => true
-  | _ => false
-
-def isE2 : Pc → Bool
-  | .e2 => true
-  | _ => false
-
-def Cfg.Good (cfg : Cfg) : Prop := cfg.evictRetires = true ∧ cfg.endUse ≠ .split
-
-structure Inv (cfg : Cfg) (s : St) : Prop where
-  cnt : s.inFlight = (s.pcs.countP holds : Nat)
-  closes1 : s.once = true → s.closes = 1
-  closes0 : s.once = false → s.closes = 0
-  knowsRet : 0 < s.pcs.countP knows → s.retired = true
-  onceRet : s.once = true → s.retired = true
-  noUse : (s.once = true ∨ 0 < s.pcs.countP closing) → s.pcs.countP isUsing = 0
-  live : s.retired = true → s.once = false → 0 < s.pcs.countP closer ∨ 0 < s.inFlight
-  noRaw : s.pcs.countP rawCloser = 0
-  noE2 : cfg.endUse = .atomic → s.pcs.countP isE2 = 0
-  bad : s.badUses = 0
-
-theorem countP_replicate_idle (f : Pc → Bool) (h : f .idle = false) (n : Nat) :
-    (List.replicate n Pc.idle).countP f = 0 := by
-  induction n with
-  | zero => simp
-  | succ n ih => simp [List.replicate_succ, h, ih]
-
-theorem inv_init (cfg : Cfg) (n : Nat) : Inv cfg (init n) := by
-  constructor <;>
-    simp [init, countP_replicate_idle holds rfl, countP_replicate_idle knows rfl,
-      countP_replicate_idle closing rfl, countP_replicate_idle isUsing rfl,
-      countP_replicate_idle closer rfl, countP_replicate_idle rawCloser rfl,
-      countP_replicate_idle isE2 rfl]
-
-/-- moving goroutine `t` from `p` to `q`, all class counts at once -/
-theorem move_counts (pcs : List Pc) (t : Nat) (p q : Pc) (h : pcs[t]? = some p) :
-    ((pcs.set t q).countP holds + (if holds p then 1 else 0) = pcs.countP holds + (if holds q then 1 else 0)) ∧
-    ((pcs.set t q).countP isUsing + (if isUsing p then 1 else 0) = pcs.countP isUsing + (if isUsing q then 1 else 0)) ∧
-    ((pcs.set t q).countP knows + (if knows p then 1 else 0) = pcs.countP knows + (if knows q then 1 else 0)) ∧
-    ((pcs.set t q).countP closing + (if closing p then 1 else 0) = pcs.countP closing + (if closing q then 1 else 0)) ∧
-    ((pcs.set t q).countP closer + (if closer p then 1 else 0) = pcs.countP closer + (if closer q then 1 else 0)) ∧
-    ((pcs.set t q).countP rawCloser + (if rawCloser p then 1 else 0) = pcs.countP rawCloser + (if rawCloser q then 1 else 0)) ∧
-    ((pcs.set t q).countP isE2 + (if isE2 p then 1 else 0) = pcs.countP isE2 + (if isE2 q then 1 else 0)) :=
-  ⟨countP_set_add _ _ _ _ _ h, countP_set_add _ _ _ _ _ h, countP_set_add _ _ _ _ _ h,
-   countP_set_add _ _ _ _ _ h, countP_set_add _ _ _ _ _ h, countP_set_add _ _ _ _ _ h,
-   countP_set_add _ _ _ _ _ h⟩
-
-macro "mv" h:ident p:term "," q:term : tactic =>
-  `(tactic| (
-    have hm := move_counts _ _ $p $q $h
-    simp only [holds, isUsing, knows, closing, closer, rawCloser, isE2, if_true, if_false,
-      Bool.false_eq_true, Nat.add_zero] at hm
-    obtain ⟨h1, h2, h3, h4, h5, h6, h7⟩ := hm))
-
-theorem sub_counts (l : List Pc) :
-    l.countP isUsing ≤ l.countP holds ∧ l.countP closing ≤ l.countP knows ∧
-    l.countP closing ≤ l.countP closer := by
-  refine ⟨List.countP_mono_left ?_, List.countP_mono_left ?_, List.countP_mono_left ?_⟩ <;>
-    intro x _ <;> cases x <;> simp [isUsing, holds, closing, knows, closer]
-
-macro "gen" s:ident t:ident q:term : tactic =>
-  `(tactic| (
-    have m1 := sub_counts (St.pcs $s)
-    have m2 := sub_counts (List.set (St.pcs $s) $t $q)
-    generalize List.countP holds (List.set (St.pcs $s) $t $q) = H' at *
-    generalize List.countP isUsing (List.set (St.pcs $s) $t $q) = U' at *
-    generalize List.countP knows (List.set (St.pcs $s) $t $q) = K' at *
-    generalize List.countP closing (List.set (St.pcs $s) $t $q) = C' at *
-    generalize List.countP closer (List.set (St.pcs $s) $t $q) = L' at *
-    generalize List.countP rawCloser (List.set (St.pcs $s) $t $q) = R' at *
-    generalize List.countP isE2 (List.set (St.pcs $s) $t $q) = E' at *
-    generalize List.countP holds (St.pcs $s) = H at *
-    generalize List.countP isUsing (St.pcs $s) = U at *
-    generalize List.countP knows (St.pcs $s) = K at *
-    generalize List.countP closing (St.pcs $s) = C at *
-    generalize List.countP closer (St.pcs $s) = L at *
-    generalize List.countP rawCloser (St.pcs $s) = R at *
-    generalize List.countP isE2 (St.pcs $s) = E at *))
-
-macro "fin" cfg:ident s:ident : tactic =>
-  `(tactic| (intros; cases he : Cfg.endUse $cfg <;> cases hr : St.retired $s <;> cases ho : St.once $s <;>
-      simp only [he, hr, ho, Bool.false_eq_true, Bool.true_eq_false, reduceCtorEq, true_implies, false_implies,
-        forall_const, true_or, false_or, or_true, or_false, not_true_eq_false, ne_eq,
-        not_false_eq_true, implies_true, imp_self, imp_false, true_and, and_true, false_and, and_false] at * <;> omega))
-
-macro "fwd" cfg:ident s:ident t:ident h:ident p:term "," q:term : tactic =>
-  `(tactic| (mv $h $p, $q; constructor <;> dsimp only [St.setPc] <;> gen $s $t $q <;> fin $cfg $s))
-
-theorem inv_step_b1 (cfg : Cfg) (hg : cfg.Good) (s : St) (t : Nat) (h : s.pcs[t]? = some Pc.b1)
-    (hi : Inv cfg s) : Inv cfg (stepPc cfg s t) := by
-  obtain ⟨c1, c2a, c2b, c3, c4, c5, c6, c7, c9, c8⟩ := hi
-  obtain ⟨hg1, hg2⟩ := hg
-  simp only [stepPc, h]
-  split
-  · fwd cfg s t h Pc.b1, Pc.idle
-  · fwd cfg s t h Pc.b1, Pc.b2
-
-theorem inv_step_b2 (cfg : Cfg) (hg : cfg.Good) (s : St) (t : Nat) (h : s.pcs[t]? = some Pc.b2)
-    (hi : Inv cfg s) : Inv cfg (stepPc cfg s t) := by
-  obtain ⟨c1, c2a, c2b, c3, c4, c5, c6, c7, c9, c8⟩ := hi
-  obtain ⟨hg1, hg2⟩ := hg
-  simp only [stepPc, h]
-  fwd cfg s t h Pc.b2, Pc.b3
-
-theorem inv_step_b3 (cfg : Cfg) (hg : cfg.Good) (s : St) (t : Nat) (h : s.pcs[t]? = some Pc.b3)
-    (hi : Inv cfg s) : Inv cfg (stepPc cfg s t) := by
-  obtain ⟨c1, c2a, c2b, c3, c4, c5, c6, c7, c9, c8⟩ := hi
-  obtain ⟨hg1, hg2⟩ := hg
-  simp only [stepPc, h]
-  split
-  · fwd cfg s t h Pc.b3, Pc.b4
-  · fwd cfg s t h Pc.b3, Pc.busy
-
-theorem inv_step_b4 (cfg : Cfg) (hg : cfg.Good) (s : St) (t : Nat) (h : s.pcs[t]? = some Pc.b4)
-    (hi : Inv cfg s) : Inv cfg (stepPc cfg s t) := by
-  obtain ⟨c1, c2a, c2b, c3, c4, c5, c6, c7, c9, c8⟩ := hi
-  obtain ⟨hg1, hg2⟩ := hg
-  simp only [stepPc, h]
-  split
-  · fwd cfg s t h Pc.b4, Pc.b5
-  · fwd cfg s t h Pc.b4, Pc.idle
-
-theorem inv_step_b5 (cfg : Cfg) (hg : cfg.Good) (s : St) (t : Nat) (h : s.pcs[t]? = some Pc.b5)
-    (hi : Inv cfg s) : Inv cfg (stepPc cfg s t) := by
-  obtain ⟨c1, c2a, c2b, c3, c4, c5, c6, c7, c9, c8⟩ := hi
-  obtain ⟨hg1, hg2⟩ := hg
-  simp only [stepPc, h]
-  simp only [St.closeNow]
-  split
-  · fwd cfg s t h Pc.b5, Pc.idle
-  · fwd cfg s t h Pc.b5, Pc.idle
-
-theorem inv_step_e1 (cfg : Cfg) (hg : cfg.Good) (s : St) (t : Nat) (h : s.pcs[t]? = some Pc.e1)
-    (hi : Inv cfg s) : Inv cfg (stepPc cfg s t) := by
-  obtain ⟨c1, c2a, c2b, c3, c4, c5, c6, c7, c9, c8⟩ := hi
-  obtain ⟨hg1, hg2⟩ := hg
-  simp only [stepPc, h]
-  split
-  · split
-    · split
-      · fwd cfg s t h Pc.e1, Pc.e3
-      · fwd cfg s t h Pc.e1, Pc.idle
-    · fwd cfg s t h Pc.e1, Pc.e2
-  · fwd cfg s t h Pc.e1, Pc.idle
-
-theorem inv_step_e2 (cfg : Cfg) (hg : cfg.Good) (s : St) (t : Nat) (h : s.pcs[t]? = some Pc.e2)
-    (hi : Inv cfg s) : Inv cfg (stepPc cfg s t) := by
-  obtain ⟨c1, c2a, c2b, c3, c4, c5, c6, c7, c9, c8⟩ := hi
-  obtain ⟨hg1, hg2⟩ := hg
-  simp only [stepPc, h]
-  split
-  · split
-    · fwd cfg s t h Pc.e2, Pc.e2r
-    · fwd cfg s t h Pc.e2, Pc.e3
-  · fwd cfg s t h Pc.e2, Pc.idle
-
-theorem inv_step_e2r (cfg : Cfg) (hg : cfg.Good) (s : St) (t : Nat) (h : s.pcs[t]? = some Pc.e2r)
-    (hi : Inv cfg s) : Inv cfg (stepPc cfg s t) := by
-  obtain ⟨c1, c2a, c2b, c3, c4, c5, c6, c7, c9, c8⟩ := hi
-  obtain ⟨hg1, hg2⟩ := hg
-  simp only [stepPc, h]
-  split
-  · fwd cfg s t h Pc.e2r, Pc.e3
-  · fwd cfg s t h Pc.e2r, Pc.idle
-
-theorem inv_step_e3 (cfg : Cfg) (hg : cfg.Good) (s : St) (t : Nat) (h : s.pcs[t]? = some Pc.e3)
-    (hi : Inv cfg s) : Inv cfg (stepPc cfg s t) := by
-  obtain ⟨c1, c2a, c2b, c3, c4, c5, c6, c7, c9, c8⟩ := hi
-  obtain ⟨hg1, hg2⟩ := hg
-  simp only [stepPc, h]
-  simp only [St.closeNow]
-  split
-  · fwd cfg s t h Pc.e3, Pc.idle
-  · fwd cfg s t h Pc.e3, Pc.idle
-
-theorem inv_step_r1 (cfg : Cfg) (hg : cfg.Good) (s : St) (t : Nat) (h : s.pcs[t]? = some Pc.r1)
-    (hi : Inv cfg s) : Inv cfg (stepPc cfg s t) := by
-  obtain ⟨c1, c2a, c2b, c3, c4, c5, c6, c7, c9, c8⟩ := hi
-  obtain ⟨hg1, hg2⟩ := hg
-  simp only [stepPc, h]
-  fwd cfg s t h Pc.r1, Pc.r2
-
-theorem inv_step_r2 (cfg : Cfg) (hg : cfg.Good) (s : St) (t : Nat) (h : s.pcs[t]? = some Pc.r2)
-    (hi : Inv cfg s) : Inv cfg (stepPc cfg s t) := by
-  obtain ⟨c1, c2a, c2b, c3, c4, c5, c6, c7, c9, c8⟩ := hi
-  obtain ⟨hg1, hg2⟩ := hg
-  simp only [stepPc, h]
-  split
-  · fwd cfg s t h Pc.r2, Pc.r3
-  · fwd cfg s t h Pc.r2, Pc.idle
-
-theorem inv_step_r3 (cfg : Cfg) (hg : cfg.Good) (s : St) (t : Nat) (h : s.pcs[t]? = some Pc.r3)
-    (hi : Inv cfg s) : Inv cfg (stepPc cfg s t) := by
-  obtain ⟨c1, c2a, c2b, c3, c4, c5, c6, c7, c9, c8⟩ := hi
-  obtain ⟨hg1, hg2⟩ := hg
-  simp only [stepPc, h]
-  simp only [St.closeNow]
-  split
-  · fwd cfg s t h Pc.r3, Pc.idle
-  · fwd cfg s t h Pc.r3, Pc.idle
-
-theorem inv_step_v1 (cfg : Cfg) (hg : cfg.Good) (s : St) (t : Nat) (h : s.pcs[t]? = some Pc.v1)
-    (hi : Inv cfg s) : Inv cfg (stepPc cfg s t) := by
-  obtain ⟨c1, c2a, c2b, c3, c4, c5, c6, c7, c9, c8⟩ := hi
-  obtain ⟨hg1, hg2⟩ := hg
-  simp only [stepPc, h]
-  split
-  · fwd cfg s t h Pc.v1, Pc.idle
-  · fwd cfg s t h Pc.v1, Pc.v2
-
-theorem inv_step_v2 (cfg : Cfg) (hg : cfg.Good) (s : St) (t : Nat) (h : s.pcs[t]? = some Pc.v2)
-    (hi : Inv cfg s) : Inv cfg (stepPc cfg s t) := by
-  obtain ⟨c1, c2a, c2b, c3, c4, c5, c6, c7, c9, c8⟩ := hi
-  obtain ⟨hg1, hg2⟩ := hg
-  simp only [stepPc, h]
-  simp only [hg1, if_true]
-  split
-  · fwd cfg s t h Pc.v2, Pc.r1
-  · fwd cfg s t h Pc.v2, Pc.idle
-
-theorem inv_step_v3 (cfg : Cfg) (hg : cfg.Good) (s : St) (t : Nat) (h : s.pcs[t]? = some Pc.v3)
-    (hi : Inv cfg s) : Inv cfg (stepPc cfg s t) := by
-  obtain ⟨c1, c2a, c2b, c3, c4, c5, c6, c7, c9, c8⟩ := hi
-  obtain ⟨hg1, hg2⟩ := hg
-  simp only [stepPc, h]
-  fwd cfg s t h Pc.v3, Pc.idle
-
-theorem inv_step_c1 (cfg : Cfg) (hg : cfg.Good) (s : St) (t : Nat) (h : s.pcs[t]? = some Pc.c1)
-    (hi : Inv cfg s) : Inv cfg (stepPc cfg s t) := by
-  obtain ⟨c1, c2a, c2b, c3, c4, c5, c6, c7, c9, c8⟩ := hi
-  obtain ⟨hg1, hg2⟩ := hg
-  simp only [stepPc, h]
-  split
-  · fwd cfg s t h Pc.c1, Pc.r1
-  · fwd cfg s t h Pc.c1, Pc.idle
-
-theorem inv_stepPc (cfg : Cfg) (hg : cfg.Good) (s : St) (t : Nat) (hi : Inv cfg s) :
-    Inv cfg (stepPc cfg s t) := by
-  cases h : s.pcs[t]? with
-  | none => simpa [stepPc, h] using hi
-  | some p =>
-    cases p
-    case idle => simpa [stepPc, h] using hi
-    case busy => simpa [stepPc, h] using hi
-    case b1 => exact inv_step_b1 cfg hg s t h hi
-    case b2 => exact inv_step_b2 cfg hg s t h hi
-    case b3 => exact inv_step_b3 cfg hg s t h hi
-    case b4 => exact inv_step_b4 cfg hg s t h hi
-    case b5 => exact inv_step_b5 cfg hg s t h hi
-    case e1 => exact inv_step_e1 cfg hg s t h hi
-    case e2 => exact inv_step_e2 cfg hg s t h hi
-    case e2r => exact inv_step_e2r cfg hg s t h hi
-    case e3 => exact inv_step_e3 cfg hg s t h hi
-    case r1 => exact inv_step_r1 cfg hg s t h hi
-    case r2 => exact inv_step_r2 cfg hg s t h hi
-    case r3 => exact inv_step_r3 cfg hg s t h hi
-    case v1 => exact inv_step_v1 cfg hg s t h hi
-    case v2 => exact inv_step_v2 cfg hg s t h hi
-    case v3 => exact inv_step_v3 cfg hg s t h hi
-    case c1 => exact inv_step_c1 cfg hg s t h hi
-
-
-theorem inv_setPc_call (cfg : Cfg) (s : St) (t : Nat) (p q : Pc) (h : s.pcs[t]? = some p)
-    (hp : p = .idle ∨ p = .busy)
-    (hq : (p = .idle ∧ (q = .b1 ∨ q = .r1 ∨ q = .c1 ∨ q = .v1)) ∨ (p = .busy ∧ q = .e1))
-    (hi : Inv cfg s) : Inv cfg (s.setPc t q) := by
-  obtain ⟨c1, c2a, c2b, c3, c4, c5, c6, c7, c9, c8⟩ := hi
-  rcases hq with ⟨rfl, rfl | rfl | rfl | rfl⟩ | ⟨rfl, rfl⟩
-  · fwd cfg s t h Pc.idle, Pc.b1
-  · fwd cfg s t h Pc.idle, Pc.r1
-  · fwd cfg s t h Pc.idle, Pc.c1
-  · fwd cfg s t h Pc.idle, Pc.v1
-  · fwd cfg s t h Pc.busy, Pc.e1
-
-theorem inv_step (cfg : Cfg) (hg : cfg.Good) (s : St) (a : Act) (hi : Inv cfg s) :
-    Inv cfg (step cfg s a) := by
-  cases a with
-  | callBegin t =>
-    simp only [step]; split
-    · next h => exact inv_setPc_call cfg s t _ _ h (.inl rfl) (.inl ⟨rfl, .inl rfl⟩) hi
-    · exact hi
-  | callEnd t =>
-    simp only [step]; split
-    · next h => exact inv_setPc_call cfg s t _ _ h (.inr rfl) (.inr ⟨rfl, rfl⟩) hi
-    · exact hi
-  | callRetire t =>
-    simp only [step]; split
-    · next h => exact inv_setPc_call cfg s t _ _ h (.inl rfl) (.inl ⟨rfl, .inr (.inl rfl)⟩) hi
-    · exact hi
-  | callRetireCached t =>
-    simp only [step]; split
-    · next h => exact inv_setPc_call cfg s t _ _ h (.inl rfl) (.inl ⟨rfl, .inr (.inr (.inl rfl))⟩) hi
-    · exact hi
-  | callEvict t =>
-    simp only [step]; split
-    · next h => exact inv_setPc_call cfg s t _ _ h (.inl rfl) (.inl ⟨rfl, .inr (.inr (.inr rfl))⟩) hi
-    · exact hi
-  | forward t =>
-    simp only [step]; split
-    · next h =>
-      split
-      · next hc =>
-        -- a goroutine is in `busy`, so the forwarder cannot have been closed
-        exfalso
-        obtain ⟨c1, c2a, c2b, c3, c4, c5, c6, c7, c9, c8⟩ := hi
-        have hpos : 0 < s.pcs.countP isUsing := by
-          apply List.countP_pos_iff.mpr
-          exact ⟨Pc.busy, List.mem_of_getElem? h, rfl⟩
-        cases ho : s.once
-        · have := c2b ho; omega
-        · have := c5 (.inl ho); omega
-      · exact hi
-    · exact hi
-  | step t => exact inv_stepPc cfg hg s t hi
-
-theorem inv_run (cfg : Cfg) (hg : cfg.Good) (as : List Act) : ∀ s, Inv cfg s → Inv cfg (run cfg s as) := by
-  induction as with
-  | nil => intro s h; exact h
-  | cons a as ih => intro s h; exact ih _ (inv_step cfg hg s a h)
-
-theorem countP_zero_of_all_idle (f : Pc → Bool) (hf : f .idle = false) (l : List Pc)
-    (h : ∀ p ∈ l, p = Pc.idle) : l.countP f = 0 := by
-  apply List.countP_eq_zero.mpr
-  intro p hp; rw [h p hp, hf]; simp
-
-end Fwd
-
-namespace Ctl
-
-theorem mem_erase {β} {l : List (Key × β)} {k : Key} {p : Key × β} (h : p ∈ erase l k) : p ∈ l ∧ p.1 ≠ k := by
-  simp only [erase, List.mem_filter, Bool.not_eq_eq_eq_not, Bool.not_true, beq_eq_false_iff_ne, ne_eq] at h
-  exact h
-
-theorem mem_insert {β} {l : List (Key × β)} {k : Key} {v : β} {p : Key × β} (h : p ∈ insert l k v) :
-    p = (k, v) ∨ (p ∈ l ∧ p.1 ≠ k) := by
-  simp only [insert, List.mem_cons] at h
-  rcases h with h | h
-  · exact .inl h
-  · exact .inr (mem_erase h)
-
-theorem lookup_some {β} {l : List (Key × β)} {k : Key} {v : β} (h : lookup l k = some v) : (k, v) ∈ l := by
-  simp only [lookup, Option.map_eq_some_iff] at h
-  obtain ⟨p, hp, rfl⟩ := h
-  have h1 := List.find?_some hp
-  have h2 := List.mem_of_find?_eq_some hp
-  simp only [beq_iff_eq] at h1
-  rw [← h1]; exact h2
-
-theorem lookup_none {β} {l : List (Key × β)} {k : Key} (h : lookup l k = none) : ∀ v, (k, v) ∉ l := by
-  intro v hv
-  simp only [lookup, Option.map_eq_none_iff, List.find?_eq_none] at h
-  have := h _ hv
-  simp at this
-
-/-- what a reply must satisfy for client `c` -/
-def Reply.good (c : Client) (r : Reply) : Prop := r.id = c.id ∧ ∃ rq, r.q = some rq ∧ rq.same c.q = true
-
-theorem same_of_key {a b : Question} (hn : a.name = b.name) (ht : a.qtype = b.qtype) : a.same b = true := by
-  simp [Question.same, hn, ht]
-
-structure Inv (s : St) : Prop where
-  cacheSound : ∀ (k : Key) (e : Entry), (k, e) ∈ s.cache → e.q.name = k.name ∧ e.q.qtype = k.qtype
-  leaderKey : ∀ (f : Nat) (fl : Flight), s.flights[f]? = some fl →
-    ∃ c : Client, s.clients[fl.leader]? = some c ∧ c.key = fl.key
-  flightSound : ∀ (f : Nat) (fl : Flight) (m : UpMsg), s.flights[f]? = some fl → fl.result = some (DRes.ok m) →
-    ∃ mq : Question, m.q = some mq ∧ mq.name = fl.key.name ∧ mq.qtype = fl.key.qtype
-  attached : ∀ (i f : Nat), (s.pcs[i]? = some (Pc.waiting f) ∨ s.pcs[i]? = some (Pc.leading f)) →
-    ∃ (c : Client) (fl : Flight), s.clients[i]? = some c ∧ s.flights[f]? = some fl ∧ fl.key = c.key
-  outsGood : ∀ (i : Nat) (o : Outcome), (i, o) ∈ s.outs → ∃ c : Client, s.clients[i]? = some c ∧
-    (∀ r : Reply, o = Outcome.wrote r → r.good c)
-  activeFlight : ∀ (k : Key) (f : Nat), (k, f) ∈ s.active →
-    ∃ fl : Flight, s.flights[f]? = some fl ∧ fl.key = k ∧ fl.result = none
-  activeUnique : ∀ (k : Key) (f g : Nat), (k, f) ∈ s.active → (k, g) ∈ s.active → f = g
-  runningActive : ∀ (f : Nat) (fl : Flight), s.flights[f]? = some fl → fl.result = none →
-    (fl.key, f) ∈ s.active ∧ s.pcs[fl.leader]? = some (Pc.leading f)
-  leadingRunning : ∀ (i f : Nat), s.pcs[i]? = some (Pc.leading f) →
-    ∃ fl : Flight, s.flights[f]? = some fl ∧ fl.leader = i ∧ fl.result = none
-  callsLen : s.calls.length = s.flights.length
-  outsDone : ∀ (i : Nat) (o : Outcome), (i, o) ∈ s.outs → s.pcs[i]? = some Pc.done
-  doneOuts : ∀ (i : Nat), s.pcs[i]? = some Pc.done → ∃ o : Outcome, (i, o) ∈ s.outs
-  outsNodup : (s.outs.map (·.1)).Nodup
-
-theorem inv_init (cs : List Client) : Inv (init cs) := by
-  constructor <;> simp [init]
-
-theorem ownReply_good (c : Client) (rc : Nat) (tc : Bool) : (ownReply c rc tc).good c := by
-  refine ⟨rfl, c.q, rfl, ?_⟩; simp [Question.same]
-
-theorem getElem?_set_some {α} {l : List α} {i j : Nat} {a x : α} (h : (l.set i a)[j]? = some x) :
-    (i = j ∧ x = a) ∨ (i ≠ j ∧ l[j]? = some x) := by
-  rw [List.getElem?_set] at h
-  split at h
-  · split at h
-    · simp only [Option.some.injEq] at h; exact .inl ⟨‹_›, h.symm⟩
-    · simp at h
-  · exact .inr ⟨‹_›, h⟩
-
-theorem getElem?_snoc_some {α} {l : List α} {j : Nat} {a x : α} (h : (l ++ [a])[j]? = some x) :
-    l[j]? = some x ∨ (j = l.length ∧ x = a) := by
-  rw [List.getElem?_append] at h
-  split at h
-  · exact .inl h
-  · next hlt =>
-    have : j - l.length = 0 := by
-      cases hj : j - l.length with
-      | zero => rfl
-      | succ n => rw [hj] at h; simp at h
-    rw [this] at h
-    simp only [List.getElem?_cons_zero, Option.some.injEq] at h
-    exact .inr ⟨by omega, h.symm⟩
-
-/-- client `i` (not a leader) writes its outcome and is done -/
-theorem inv_finish (s : St) (i : Nat) (c : Client) (o : Outcome) (p : Pc) (hc : s.clients[i]? = some c)
-    (hp : s.pcs[i]? = some p) (hpk : p = .init ∨ ∃ f, p = .waiting f)
-    (ho : ∀ r, o = .wrote r → r.good c) (hi : Inv s) : Inv ((s.emit i o).setPc i .done) := by
-  obtain ⟨h1, h2, h3, h4, h5, h6, h7, h8, h9, h10, h11, h12, h13⟩ := hi
-  have hlt : i < s.pcs.length := by
-    rcases List.getElem?_eq_some_iff.mp hp with ⟨h, _⟩; exact h
-  have hnotdone : p ≠ Pc.done := by rcases hpk with rfl | ⟨f, rfl⟩ <;> simp
-  have hnotlead : ∀ f, p ≠ Pc.leading f := by intro f; rcases hpk with rfl | ⟨g, rfl⟩ <;> simp
-  refine ⟨h1, h2, h3, ?_, ?_, h6, h7, ?_, ?_, h10, ?_, ?_, ?_⟩
-  · intro j f hj
-    simp only [St.setPc, St.emit] at hj ⊢
-    have hne : i ≠ j := by
-      intro e; subst e
-      rw [List.getElem?_set_self hlt] at hj
-      simp at hj
-    rw [List.getElem?_set_ne hne] at hj
-    exact h4 j f hj
-  · intro j o' hj
-    simp only [St.setPc, St.emit, List.mem_append, List.mem_singleton, Prod.mk.injEq] at hj ⊢
-    rcases hj with hj | ⟨rfl, rfl⟩
-    · exact h5 j o' hj
-    · exact ⟨c, hc, ho⟩
-  · intro f fl hf hr
-    obtain ⟨ha, hl⟩ := h8 f fl hf hr
-    refine ⟨ha, ?_⟩
-    simp only [St.setPc, St.emit]
-    have hne : i ≠ fl.leader := by
-      intro e; subst e; rw [hp] at hl; simp only [Option.some.injEq] at hl; exact hnotlead f hl
-    rw [List.getElem?_set_ne hne]; exact hl
-  · intro j f hj
-    simp only [St.setPc, St.emit] at hj ⊢
-    have hne : i ≠ j := by
-      intro e; subst e
-      rw [List.getElem?_set_self hlt] at hj
-      simp at hj
-    rw [List.getElem?_set_ne hne] at hj
-    exact h9 j f hj
-  · intro j o' hj
-    simp only [St.setPc, St.emit, List.mem_append, List.mem_singleton, Prod.mk.injEq] at hj ⊢
-    rcases hj with hj | ⟨rfl, rfl⟩
-    · by_cases hne : i = j
-      · subst hne; exact List.getElem?_set_self hlt
-      · rw [List.getElem?_set_ne hne]; exact h11 j o' hj
-    · exact List.getElem?_set_self hlt
-  · intro j hj
-    simp only [St.setPc, St.emit, List.mem_append, List.mem_singleton, Prod.mk.injEq] at hj ⊢
-    by_cases hne : i = j
-    · subst hne; exact ⟨o, .inr ⟨rfl, rfl⟩⟩
-    · rw [List.getElem?_set_ne hne] at hj
-      obtain ⟨o', ho'⟩ := h12 j hj
-      exact ⟨o', .inl ho'⟩
-  · simp only [St.setPc, St.emit, List.map_append, List.map_cons, List.map_nil]
-    rw [List.nodup_append]
-    refine ⟨h13, by simp, ?_⟩
-    intro a ha b hb
-    simp only [List.mem_singleton] at hb
-    subst hb
-    intro e; subst e
-    simp only [List.mem_map] at ha
-    obtain ⟨⟨j, o'⟩, hm, rfl⟩ := ha
-    have := h11 j o' hm
-    rw [hp] at this
-    simp only [Option.some.injEq] at this
-    exact hnotdone this
-
-theorem inv_cache_subset (s : St) (c' : List (Key × Entry)) (h : ∀ p, p ∈ c' → p ∈ s.cache) (hi : Inv s) :
-    Inv { s with cache := c' } := by
-  obtain ⟨h1, h2, h3, h4, h5, h6, h7, h8, h9, h10, h11, h12, h13⟩ := hi
-  exact ⟨fun k e hm => h1 k e (h _ hm), h2, h3, h4, h5, h6, h7, h8, h9, h10, h11, h12, h13⟩
-
-theorem cachedReply_good (s : St) (hi : Inv s) (c : Client) (e : Entry) (h : lookup s.cache c.key = some e) :
-    (cachedReply c e).good c := by
-  have := hi.cacheSound _ _ (lookup_some h)
-  refine ⟨rfl, e.q, rfl, ?_⟩
-  simp only [Client.key] at this
-  exact same_of_key this.1 this.2
-
-theorem inv_step_refuse (cfg : Cfg) (s : St) (i : Nat) (hi : Inv s) : Inv (step cfg s (.refuse i)) := by
-  simp only [step]
-  split
-  · next c hc hp =>
-    exact inv_finish s i c _ .init hc hp (.inl rfl) (by intro r h; cases h; exact ownReply_good ..) hi
-  · exact hi
-
-theorem inv_step_evict (cfg : Cfg) (s : St) (k : Key) (hi : Inv s) : Inv (step cfg s (.evict k)) := by
-  simp only [step]
-  exact inv_cache_subset s _ (fun p hp => (mem_erase hp).1) hi
-
-theorem inv_step_wake (cfg : Cfg) (s : St) (i : Nat) (hi : Inv s) : Inv (step cfg s (.wake i)) := by
-  simp only [step]
-  split
-  · next c f hc hp =>
-    split
-    · next fl hf =>
-      split
-      · exact hi
-      · next e hr =>
-        exact inv_finish s i c _ (.waiting f) hc hp (.inr ⟨f, rfl⟩) (by intro r h; cases h) hi
-      · next m hr =>
-        split
-        · next e he =>
-          exact inv_finish s i c _ (.waiting f) hc hp (.inr ⟨f, rfl⟩)
-            (by intro r h; cases h; exact cachedReply_good s hi c e he) hi
-        · refine inv_finish s i c _ (.waiting f) hc hp (.inr ⟨f, rfl⟩) ?_ hi
-          intro r h; cases h
-          obtain ⟨c', fl', hc', hf', hk⟩ := hi.attached i f (.inl hp)
-          rw [hc] at hc'; cases hc'
-          rw [hf] at hf'; cases hf'
-          obtain ⟨mq, hmq, hn, ht⟩ := hi.flightSound f fl m hf hr
-          refine ⟨rfl, mq, hmq, ?_⟩
-          rw [hk] at hn ht
-          exact same_of_key hn ht
-    · exact hi
-  · exact hi
-
-theorem inv_step_arrive (cfg : Cfg) (s : St) (i : Nat) (hi : Inv s) : Inv (step cfg s (.arrive i)) := by
-  simp only [step]
-  split
-  · next c hc hp =>
-    split
-    · -- reject route
-      refine inv_finish _ i c _ .init hc hp (.inl rfl) (by intro r h; cases h; exact ownReply_good ..) ?_
-      exact inv_cache_subset s _ (fun p hp => (List.mem_filter.mp hp).1) hi
-    · split
-      · next e he =>
-        exact inv_finish s i c _ .init hc hp (.inl rfl)
-          (by intro r h; cases h; exact cachedReply_good s hi c e he) hi
-      · split
-        · next f hf =>
-          -- follower: joins the running flight
-          obtain ⟨h1, h2, h3, h4, h5, h6, h7, h8, h9, h10, h11, h12, h13⟩ := hi
-          have hlt : i < s.pcs.length := by
-            rcases List.getElem?_eq_some_iff.mp hp with ⟨h, _⟩; exact h
-          obtain ⟨fl, hfl, hk, hr⟩ := h6 _ _ (lookup_some hf)
-          refine ⟨h1, h2, h3, ?_, h5, h6, h7, ?_, ?_, h10, ?_, ?_, h13⟩
-          · intro j g hj
-            simp only [St.setPc] at hj ⊢
-            by_cases hne : i = j
-            · subst hne
-              rw [List.getElem?_set_self hlt] at hj
-              rcases hj with hj | hj
-              · cases hj; exact ⟨c, fl, hc, hfl, hk⟩
-              · cases hj
-            · rw [List.getElem?_set_ne hne] at hj; exact h4 j g hj
-          · intro g gl hg hgr
-            obtain ⟨ha, hl⟩ := h8 g gl hg hgr
-            refine ⟨ha, ?_⟩
-            simp only [St.setPc]
-            have hne : i ≠ gl.leader := by
-              intro e; subst e; rw [hp] at hl; cases hl
-            rw [List.getElem?_set_ne hne]; exact hl
-          · intro j g hj
-            simp only [St.setPc] at hj ⊢
-            by_cases hne : i = j
-            · subst hne; rw [List.getElem?_set_self hlt] at hj; cases hj
-            · rw [List.getElem?_set_ne hne] at hj; exact h9 j g hj
-          · intro j o hj
-            simp only [St.setPc] at hj ⊢
-            have hne : i ≠ j := by
-              intro e; subst e; have := h11 _ o hj; rw [hp] at this; cases this
-            rw [List.getElem?_set_ne hne]; exact h11 j o hj
-          · intro j hj
-            simp only [St.setPc] at hj ⊢
-            by_cases hne : i = j
-            · subst hne; rw [List.getElem?_set_self hlt] at hj; cases hj
-            · rw [List.getElem?_set_ne hne] at hj; exact h12 j hj
-        · next hnone =>
-          -- leader: creates a flight
-          obtain ⟨h1, h2, h3, h4, h5, h6, h7, h8, h9, h10, h11, h12, h13⟩ := hi
-          have hlt : i < s.pcs.length := by
-            rcases List.getElem?_eq_some_iff.mp hp with ⟨h, _⟩; exact h
-          have hnoact := lookup_none hnone
-          refine ⟨h1, ?_, ?_, ?_, h5, ?_, ?_, ?_, ?_, ?_, ?_, ?_, h13⟩
-          · intro g gl hg
-            simp only [St.setPc] at hg ⊢
-            rcases getElem?_snoc_some hg with hg | ⟨_, rfl⟩
-            · exact h2 g gl hg
-            · exact ⟨c, hc, rfl⟩
-          · intro g gl m hg hgr
-            simp only [St.setPc] at hg ⊢
-            rcases getElem?_snoc_some hg with hg | ⟨_, rfl⟩
-            · exact h3 g gl m hg hgr
-            · cases hgr
-          · intro j g hj
-            simp only [St.setPc] at hj ⊢
-            by_cases hne : i = j
-            · subst hne
-              rw [List.getElem?_set_self hlt] at hj
-              rcases hj with hj | hj
-              · cases hj
-              · cases hj
-                exact ⟨c, _, hc, List.getElem?_concat_length, rfl⟩
-            · rw [List.getElem?_set_ne hne] at hj
-              obtain ⟨c', fl', hc', hf', hk'⟩ := h4 j g hj
-              refine ⟨c', fl', hc', ?_, hk'⟩
-              have hglt : g < s.flights.length := by
-                rcases List.getElem?_eq_some_iff.mp hf' with ⟨h, _⟩; exact h
-              rw [List.getElem?_append_left hglt]; exact hf'
-          · intro k g hkg
-            simp only [St.setPc] at hkg ⊢
-            rcases mem_insert hkg with hkg | ⟨hkg, _⟩
-            · cases hkg
-              exact ⟨_, List.getElem?_concat_length, rfl, rfl⟩
-            · obtain ⟨fl, hfl, hk, hr⟩ := h6 k g hkg
-              have hglt : g < s.flights.length := by
-                rcases List.getElem?_eq_some_iff.mp hfl with ⟨h, _⟩; exact h
-              exact ⟨fl, by rw [List.getElem?_append_left hglt]; exact hfl, hk, hr⟩
-          · intro k g g' hg hg'
-            simp only [St.setPc] at hg hg'
-            rcases mem_insert hg with hg | ⟨hg, hgk⟩ <;> rcases mem_insert hg' with hg' | ⟨hg', hgk'⟩
-            · cases hg; cases hg'; rfl
-            · cases hg; exact absurd rfl hgk'
-            · cases hg'; exact absurd rfl hgk
-            · exact h7 k g g' hg hg'
-          · intro g gl hg hgr
-            simp only [St.setPc] at hg ⊢
-            rcases getElem?_snoc_some hg with hg | ⟨rfl, rfl⟩
-            · obtain ⟨ha, hl⟩ := h8 g gl hg hgr
-              refine ⟨?_, ?_⟩
-              · simp only [insert, List.mem_cons]
-                right
-                simp only [erase, List.mem_filter, Bool.not_eq_eq_eq_not, Bool.not_true, beq_eq_false_iff_ne, ne_eq]
-                refine ⟨ha, ?_⟩
-                intro e
-                exact hnoact g (e ▸ ha)
-              · have hne : i ≠ gl.leader := by
-                  intro e; subst e; rw [hp] at hl; cases hl
-                rw [List.getElem?_set_ne hne]; exact hl
-            · refine ⟨?_, ?_⟩
-              · simp [insert]
-              · exact List.getElem?_set_self hlt
-          · intro j g hj
-            simp only [St.setPc] at hj ⊢
-            by_cases hne : i = j
-            · subst hne
-              rw [List.getElem?_set_self hlt] at hj
-              cases hj
-              exact ⟨_, List.getElem?_concat_length, rfl, rfl⟩
-            · rw [List.getElem?_set_ne hne] at hj
-              obtain ⟨fl, hfl, hl, hr⟩ := h9 j g hj
-              have hglt : g < s.flights.length := by
-                rcases List.getElem?_eq_some_iff.mp hfl with ⟨h, _⟩; exact h
-              exact ⟨fl, by rw [List.getElem?_append_left hglt]; exact hfl, hl, hr⟩
-          · simp only [St.setPc, List.length_append, List.length_cons, List.length_nil]
-            omega
-          · intro j o hj
-            simp only [St.setPc] at hj ⊢
-            have hne : i ≠ j := by
-              intro e; subst e; have := h11 _ o hj; rw [hp] at this; cases this
-            rw [List.getElem?_set_ne hne]; exact h11 j o hj
-          · intro j hj
-            simp only [St.setPc] at hj ⊢
-            by_cases hne : i = j
-            · subst hne; rw [List.getElem?_set_self hlt] at hj; cases hj
-            · rw [List.getElem?_set_ne hne] at hj; exact h12 j hj
-  · exact hi
-
-theorem same_iff {a b : Question} : a.same b = true ↔ a.name = b.name ∧ a.qtype = b.qtype := by
-  simp [Question.same]
-
-theorem dialSend_spec (cfg : Cfg) (hcfg : cfg.checkQuestion = true) (c : Client) (sch : Scheme) (a1 a2 : Att)
-    (cache : List (Key × Entry)) :
-    (∀ m, (dialSend cfg c sch a1 a2 cache).1 = .ok m →
-      m.id = c.id ∧ ∃ mq : Question, m.q = some mq ∧ mq.name = c.q.name ∧ mq.qtype = c.q.qtype) ∧
-    (∀ p, p ∈ (dialSend cfg c sch a1 a2 cache).2 →
-      p ∈ cache ∨ (p.1 = c.key ∧ p.2.q.name = c.q.name ∧ p.2.q.qtype = c.q.qtype)) := by
-  unfold dialSend
-  split
-  · exact ⟨(by intro m h; cases h), fun p hp => .inl hp⟩
-  · next m hm =>
-    rw [hcfg]
-    simp only [Bool.true_and]
-    cases hq : answersRequest c.q m
-    · simp only [Bool.not_false, if_true]
-      exact ⟨(by intro m h; cases h), fun p hp => .inl hp⟩
-    · simp only [Bool.not_true, Bool.false_eq_true, if_false]
-      split
-      · exact ⟨(by intro m h; cases h), fun p hp => .inl hp⟩
-      unfold answersRequest at hq
-      cases hmq : m.q with
-      | none => rw [hmq] at hq; cases hq
-      | some mq =>
-        rw [hmq] at hq
-        simp only at hq
-        have hs := same_iff.mp hq
-        refine ⟨?_, ?_⟩
-        · intro m' h
-          cases h
-          exact ⟨rfl, mq, rfl, hs.1.symm, hs.2.symm⟩
-        · intro p hp
-          simp only at hp
-          split at hp
-          · rcases mem_insert hp with rfl | ⟨hp, _⟩
-            · exact .inr ⟨rfl, hs.1.symm, hs.2.symm⟩
-            · exact .inl hp
-          · exact .inl hp
-
-theorem inv_step_resolve (cfg : Cfg) (hcfg : cfg.checkQuestion = true) (s : St) (f : Nat) (sch : Scheme)
-    (a1 a2 : Att) (hi : Inv s) : Inv (step cfg s (.resolve f sch a1 a2)) := by
-  simp only [step]
-  split
-  · next fl hf =>
-    split
-    · next f' hres hc hp =>
-      split
-      · next hff =>
-        subst hff
-        obtain ⟨hd1, hd2⟩ := dialSend_spec cfg hcfg ‹Client› sch a1 a2 s.cache
-        generalize dialSend cfg ‹Client› sch a1 a2 s.cache = d at hd1 hd2 ⊢
-        obtain ⟨r, cache'⟩ := d
-        simp only at hd1 hd2 ⊢
-        rename_i c
-        obtain ⟨h1, h2, h3, h4, h5, h6, h7, h8, h9, h10, h11, h12, h13⟩ := hi
-        have hlt : fl.leader < s.pcs.length := by
-          rcases List.getElem?_eq_some_iff.mp hp with ⟨h, _⟩; exact h
-        have hflt : f' < s.flights.length := by
-          rcases List.getElem?_eq_some_iff.mp hf with ⟨h, _⟩; exact h
-        obtain ⟨c0, hc0, hck⟩ := h2 f' fl hf
-        rw [hc] at hc0; cases hc0
-        refine ⟨?_, ?_, ?_, ?_, h5, ?_, ?_, ?_, ?_, ?_, ?_, ?_, h13⟩
-        · intro k e hm
-          rcases hd2 _ hm with hm | ⟨hk, hn, ht⟩
-          · exact h1 k e hm
-          · simp only at hk hn ht
-            subst hk
-            exact ⟨hn, ht⟩
-        · intro g gl hg
-          simp only [St.setPc] at hg ⊢
-          rcases getElem?_set_some hg with ⟨rfl, rfl⟩ | ⟨_, hg⟩
-          · exact ⟨c, hc, hck⟩
-          · exact h2 g gl hg
-        · intro g gl m hg hgr
-          simp only [St.setPc] at hg
-          rcases getElem?_set_some hg with ⟨rfl, rfl⟩ | ⟨_, hg⟩
-          · simp only [Option.some.injEq] at hgr
-            subst hgr
-            obtain ⟨_, mq, hmq, hn, ht⟩ := hd1 m rfl
-            refine ⟨mq, hmq, ?_, ?_⟩
-            · simp only; rw [← hck]; exact hn
-            · simp only; rw [← hck]; exact ht
-          · exact h3 g gl m hg hgr
-        · intro j g hj
-          simp only [St.setPc] at hj ⊢
-          have key : ∀ (c' : Client) (gl : Flight), s.clients[j]? = some c' → s.flights[g]? = some gl → gl.key = c'.key →
-              ∃ (c'' : Client) (gl' : Flight), s.clients[j]? = some c'' ∧
-                (s.flights.set f' { fl with result := some r })[g]? = some gl' ∧ gl'.key = c''.key := by
-            intro c' gl hc' hgl hk
-            by_cases hfg : f' = g
-            · subst hfg
-              rw [hf] at hgl; cases hgl
-              exact ⟨c', _, hc', List.getElem?_set_self hflt, hk⟩
-            · exact ⟨c', gl, hc', by rw [List.getElem?_set_ne hfg]; exact hgl, hk⟩
-          by_cases hne : fl.leader = j
-          · subst hne
-            rw [List.getElem?_set_self hlt] at hj
-            rcases hj with hj | hj
-            · cases hj
-              exact key c fl hc hf hck.symm
-            · cases hj
-          · rw [List.getElem?_set_ne hne] at hj
-            obtain ⟨c', gl, hc', hgl, hk⟩ := h4 j g hj
-            exact key c' gl hc' hgl hk
-        · intro k g hkg
-          simp only [St.setPc] at hkg ⊢
-          obtain ⟨hkg, hkne⟩ := mem_erase hkg
-          obtain ⟨gl, hgl, hk, hr⟩ := h6 k g hkg
-          have hfg : f' ≠ g := by
-            intro e; subst e; rw [hf] at hgl; cases hgl; exact hkne hk.symm
-          exact ⟨gl, by rw [List.getElem?_set_ne hfg]; exact hgl, hk, hr⟩
-        · intro k g g' hg hg'
-          exact h7 k g g' (mem_erase hg).1 (mem_erase hg').1
-        · intro g gl hg hgr
-          simp only [St.setPc] at hg ⊢
-          rcases getElem?_set_some hg with ⟨rfl, rfl⟩ | ⟨hne, hg⟩
-          · cases hgr
-          · obtain ⟨ha, hl⟩ := h8 g gl hg hgr
-            have hkne : gl.key ≠ fl.key := by
-              intro e
-              have h1' := (h8 f' fl hf hres).1
-              rw [← e] at h1'
-              exact hne (h7 _ _ _ h1' ha)
-            refine ⟨?_, ?_⟩
-            · simp only [erase, List.mem_filter, Bool.not_eq_eq_eq_not, Bool.not_true, beq_eq_false_iff_ne, ne_eq]
-              exact ⟨ha, hkne⟩
-            · have hne2 : fl.leader ≠ gl.leader := by
-                intro e
-                rw [← e, hp] at hl
-                simp only [Option.some.injEq, Pc.leading.injEq] at hl
-                exact hne hl
-              rw [List.getElem?_set_ne hne2]; exact hl
-        · intro j g hj
-          simp only [St.setPc] at hj ⊢
-          by_cases hne : fl.leader = j
-          · subst hne; rw [List.getElem?_set_self hlt] at hj; cases hj
-          · rw [List.getElem?_set_ne hne] at hj
-            obtain ⟨gl, hgl, hl, hr⟩ := h9 j g hj
-            have hfg : f' ≠ g := by
-              intro e; subst e; rw [hf] at hgl; cases hgl; exact hne hl
-            exact ⟨gl, by rw [List.getElem?_set_ne hfg]; exact hgl, hl, hr⟩
-        · simp only [St.setPc, List.length_set]; exact h10
-        · intro j o hj
-          simp only [St.setPc] at hj ⊢
-          have hne : fl.leader ≠ j := by
-            intro e; subst e; have := h11 _ o hj; rw [hp] at this; cases this
-          rw [List.getElem?_set_ne hne]; exact h11 j o hj
-        · intro j hj
-          simp only [St.setPc] at hj ⊢
-          by_cases hne : fl.leader = j
-          · subst hne; rw [List.getElem?_set_self hlt] at hj; cases hj
-          · rw [List.getElem?_set_ne hne] at hj; exact h12 j hj
-      · exact hi
-    · exact hi
-  · exact hi
-
-theorem inv_step (cfg : Cfg) (hcfg : cfg.checkQuestion = true) (s : St) (a : Act) (hi : Inv s) :
-    Inv (step cfg s a) := by
-  cases a with
-  | arrive i => exact inv_step_arrive cfg s i hi
-  | refuse i => exact inv_step_refuse cfg s i hi
-  | resolve f sch a1 a2 => exact inv_step_resolve cfg hcfg s f sch a1 a2 hi
-  | wake i => exact inv_step_wake cfg s i hi
-  | evict k => exact inv_step_evict cfg s k hi
-
-theorem inv_run (cfg : Cfg) (hcfg : cfg.checkQuestion = true) (as : List Act) :
-    ∀ s, Inv s → Inv (run cfg s as) := by
-  induction as with
-  | nil => intro s h; exact h
-  | cons a as ih => intro s h; exact ih _ (inv_step cfg hcfg s a h)
-
-end Ctl
-
-namespace Udp
-
-theorem loop_spec (orig : Nat) (dot : Bool) : ∀ (evs : List Ev) (st rd : Nat),
-    (∀ id b, (loop orig dot evs st rd).out = .ok id b →
-      id = orig ∧ Ev.dgram orig (some b) ∈ evs ∧ b.tc = false ∧ (loop orig dot evs st rd).kept = true) ∧
-    (∀ id b, (loop orig dot evs st rd).out = .truncated id b →
-      id = orig ∧ Ev.dgram orig (some b) ∈ evs ∧ b.tc = true ∧ (loop orig dot evs st rd).kept = true) ∧
-    (((loop orig dot evs st rd).out = .staleFlood ∨ (loop orig dot evs st rd).out = .shortFlood ∨
-      (loop orig dot evs st rd).out = .unpackErr ∨ (loop orig dot evs st rd).out = .ioerr) →
-      (loop orig dot evs st rd).kept = false) ∧
-    (st ≤ maxStale → (loop orig dot evs st rd).reads ≤ rd + (maxStale - st) + 1) := by
-  intro evs
-  induction evs with
-  | nil => intro st rd; simp [loop]
-  | cons e evs ih =>
-    intro st rd
-    cases e with
-    | timeout => simp [loop]
-    | ioerr => simp [loop]
-    | short =>
-      simp only [loop]
-      split
-      · simp <;> omega
-      · next hst =>
-        obtain ⟨h1, h2, h3, h4⟩ := ih (st + 1) (rd + 1)
-        refine ⟨?_, ?_, h3, ?_⟩
-        · intro id b h
-          obtain ⟨a, b', c, d⟩ := h1 id b h
-          exact ⟨a, List.mem_cons_of_mem _ b', c, d⟩
-        · intro id b h
-          obtain ⟨a, b', c, d⟩ := h2 id b h
-          exact ⟨a, List.mem_cons_of_mem _ b', c, d⟩
-        · intro hle
-          have := h4 (by omega)
-          omega
-    | dgram i body =>
-      simp only [loop]
-      split
-      · split
-        · simp <;> omega
-        · next hst =>
-          obtain ⟨h1, h2, h3, h4⟩ := ih (st + 1) (rd + 1)
-          refine ⟨?_, ?_, h3, ?_⟩
-          · intro id b h
-            obtain ⟨a, b', c, d⟩ := h1 id b h
-            exact ⟨a, List.mem_cons_of_mem _ b', c, d⟩
-          · intro id b h
-            obtain ⟨a, b', c, d⟩ := h2 id b h
-            exact ⟨a, List.mem_cons_of_mem _ b', c, d⟩
-          · intro hle
-            have := h4 (by omega)
-            omega
-      · next hid =>
-        have hid' : i = orig := by simpa using hid
-        subst hid'
-        cases body with
-        | none => simp <;> omega
-        | some b' =>
-          simp only
-          split
-          · next htc =>
-            refine ⟨(by intro id b h; cases h), ?_, (by simp), (by intro h; simp only; omega)⟩
-            intro id b h
-            simp only [Out.truncated.injEq] at h
-            obtain ⟨rfl, rfl⟩ := h
-            exact ⟨rfl, List.mem_cons_self, htc, rfl⟩
-          · next htc =>
-            refine ⟨?_, (by intro id b h; cases h), (by simp), (by intro h; simp only; omega)⟩
-            intro id b h
-            simp only [Out.ok.injEq] at h
-            obtain ⟨rfl, rfl⟩ := h
-            exact ⟨rfl, List.mem_cons_self, by simpa using htc, rfl⟩
-
-theorem forward_spec (orig : Nat) (dot w : Bool) (q : List Ev) :
-    (∀ id b, (forward orig dot w q).out = .ok id b → id = orig ∧ Ev.dgram orig (some b) ∈ q) ∧
-    (∀ id b, (forward orig dot w q).out = .truncated id b → id = orig ∧ Ev.dgram orig (some b) ∈ q) ∧
-    ((forward orig dot w q).reads ≤ maxStale + 1) := by
-  unfold forward
-  cases w
-  · simp
-  · simp only [if_true]
-    obtain ⟨h1, h2, _, h4⟩ := loop_spec orig dot q 0 0
-    refine ⟨fun id b h => ⟨(h1 id b h).1, (h1 id b h).2.1⟩, fun id b h => ⟨(h2 id b h).1, (h2 id b h).2.1⟩, ?_⟩
-    have := h4 (by simp [maxStale])
-    simpa using this
-
-theorem results_spec : ∀ (ops : List Op) (s : Sock) (orig : Nat) (r : Res),
-    (orig, r) ∈ results s ops →
-    (∀ id b, r.out = .ok id b → id = orig) ∧ (∀ id b, r.out = .truncated id b → id = orig) := by
-  intro ops
-  induction ops with
-  | nil => intro s orig r h; simp [results] at h
-  | cons op ops ih =>
-    intro s orig r h
-    cases op with
-    | push e =>
-      simp only [results] at h
-      exact ih _ _ _ h
-    | fwd o dot w =>
-      simp only [results, List.mem_cons, Prod.mk.injEq] at h
-      rcases h with ⟨rfl, rfl⟩ | h
-      · obtain ⟨h1, h2, _⟩ := forward_spec orig dot w s.queue
-        exact ⟨fun id b h => (h1 id b h).1, fun id b h => (h2 id b h).1⟩
-      · exact ih _ _ _ h
-
-end Udp
-
-end DaeVerif.C09
+import DaeVerif.C09.FwdProofs
+import DaeVerif.C09.CtlProofs
+import DaeVerif.C09.UdpProofs
+/-! Helper lemmas and invariants for C09 (the property theorems are in `Props.lean`); one file per model. -/
